@@ -336,7 +336,36 @@ class FuncGraph:
         return e
 
     def mk(self, op, args, node):
+        if op == 'gamma' and len(args) == 3:
+            r = self._neutral_element_fast_path(*args)
+            if r is not None:
+                return r
         return T(op, args, node, self.fn)
+
+    @staticmethod
+    def _neutral_element_fast_path(c, a, b):
+        """`x if f == 1 else f * x` (also with further conjuncts in the test, with `!=` and the arms exchanged, for `** 1`, `+ 0`, `- 0`) is `f * x`: skipping an operation
+        with its neutral element is a matter of speed, not of the value"""
+        if not (isinstance(c, T) and isinstance(a, T) and isinstance(b, T)):
+            return None
+        tests = list(c.args[1]) if c.op == 'bool' and c.args[0] == 'And' else [c]
+        for polarity, plain, computed in ((True, a, b), (False, b, a)):
+            if c.op == 'bool' and not polarity:
+                continue              # not (p and q) does not fix q
+            if computed.op not in ('binop',) or computed.args[0] not in ('Mult', 'Pow', 'Add', 'Sub', 'Div'):
+                continue
+            opn, u, v = computed.args
+            neutral = 1 if opn in ('Mult', 'Pow', 'Div') else 0
+            for f_, x_ in ((u, v), (v, u)):
+                if x_ is not plain or (opn in ('Pow', 'Sub', 'Div') and f_ is not v):
+                    continue
+                for t_ in tests:
+                    if t_.op == 'cmp' and t_.args[0] == ('Eq' if polarity else 'NotEq'):
+                        l_, r_ = t_.args[1], t_.args[2]
+                        for p_, q_ in ((l_, r_), (r_, l_)):
+                            if p_ is f_ and q_.op == 'const' and isinstance(q_.args[0], (int, float)) and not isinstance(q_.args[0], bool) and q_.args[0] == neutral:
+                                return computed
+        return None
 
     # ------------------------------------------------------------------ blocks
     def block(self, stmts, env):
@@ -977,8 +1006,25 @@ class FuncGraph:
                             done = True
                 if not done:
                     self.__dict__.setdefault('not_followed', []).append(('array updated through the element of a loop over it', getattr(node, 'lineno', 0)))
+            full = (idx.op == 'slice' and all(y.op == 'const' and y.args[0] is None for y in idx.args)) or (idx.op == 'const' and idx.args[0] is Ellipsis)
+            if full and isinstance(target.value, ast.Name) and env.get(target.value.id) is base_old and self._own_buffer(base_old) and base_old.op != 'mu' \
+                    and value.op not in ('const',) and not self._loops:
+                # buf = np.zeros(n); buf[:] = v  - a buffer the function allocated itself, overwritten as a whole: as a VALUE the name denotes v afterwards
+                st = self.mk('store', (base_old, idx, value), node)
+                self.event('store', st, node, data=dict(target=base_old, how='subscript-store'))
+                self.__dict__.setdefault('_owned', set()).add(value.id)
+                self.bind(target.value.id, value, env, node)
+                return
             st = self.mk('store', (base_old, idx, value), node)
             self.event('store', st, node, data=dict(target=base_old, how='subscript-store'))
+            self.rebind_target_base(target.value, st, env, node)
+        elif isinstance(target, ast.Attribute) and target.attr in ('real', 'imag') and isinstance(target.value, ast.Name) and \
+                not (self.self_name and target.value.id == self.self_name):
+            # x.real = v / x.imag = v on an array writes into x: it is x.real[...] = v
+            base_old = self.expr(target.value, env)
+            view = self.mk('attr', (base_old, target.attr), target)
+            st = self.mk('store', (base_old, self.mk('unknown', ('component', target.attr), node), value), node)          # (only that component of x is replaced)
+            self.event('store', st, node, data=dict(target=view, how='subscript-store'))
             self.rebind_target_base(target.value, st, env, node)
         elif isinstance(target, ast.Attribute):
             base = self.expr(target.value, env)
@@ -1071,6 +1117,20 @@ class FuncGraph:
                     return const(-v.operand.value, node, self.fn)
                 if isinstance(v, ast.Constant) and isinstance(v.value, (int, float, str, bool, type(None))):
                     return const(v.value, node, self.fn)
+                # a module-level tuple of literals (`_KFT = (1, 0, 2)`; immutable) is that tuple
+                def literal_tuple(x, depth=0):
+                    if isinstance(x, ast.Tuple) and depth < 3:
+                        return all(literal_tuple(y, depth + 1) for y in x.elts)
+                    if isinstance(x, ast.UnaryOp) and isinstance(x.op, ast.USub):
+                        x = x.operand
+                    return depth > 0 and isinstance(x, ast.Constant) and (isinstance(x.value, (int, float, str, bool, type(None))) or x.value is Ellipsis)
+                if isinstance(v, ast.Tuple) and literal_tuple(v):
+                    saved = self.cur_fn
+                    self.cur_fn = _ModScope(r[1])
+                    try:
+                        return self.expr(v, {})
+                    finally:
+                        self.cur_fn = saved
                 # a module-level constant EXPRESSION of library constants / functions only (`_LOG_2PI = np.log(2 * np.pi)`) is that expression
                 if self._namedtuple_fields(r) is not None:
                     return self.mk('ref', (r,), node)          # a record type: calls of it build tuples with named components (canonical_call)
@@ -1304,6 +1364,23 @@ class FuncGraph:
         for a in args:
             if a.op == 'star' and isinstance(a.args[0], T) and a.args[0].op == 'gamma' and self._tuple_tree(a.args[0]):
                 return self._distribute_call(f, args, kws, a, e, env)
+        # np.f(a, b, out=buf) with `buf` a buffer the function allocated itself (np.empty / zeros / *_like ..., or the result of an earlier such call) and that is not one
+        # of the operands: as a VALUE this is `buf = np.f(a, b)` - the preallocation is a matter of memory, not of what is computed
+        out_kw = [(i, v) for i, (k, v) in enumerate(kws) if k == 'out']
+        if len(out_kw) == 1 and f.op == 'ref' and isinstance(f.args[0], Lib) and not any(a.op == 'star' for a in args):
+            oname = next((k.value.id for k in e.keywords if k.arg == 'out' and isinstance(k.value, ast.Name)), None)
+            buf = out_kw[0][1]
+            if oname is not None and env.get(oname) is buf and self._own_buffer(buf) and not any(a is buf for a in args) and not any(v is buf for k, v in kws if k != 'out'):
+                with_out = self.mk('call', (f, tuple(args), tuple(kws)), e)
+                self.event('outcall', with_out, e, data=dict(name=oname, buffer=buf))
+                kws2 = [kv for kv in kws if kv[0] != 'out']
+                r = self.canonical_call(f, args, kws2, e, env)
+                if r is None:
+                    r = self.mk('call', (f, tuple(args), tuple(kws2)), e)
+                    self.event('call', r, e)
+                self.__dict__.setdefault('_owned', set()).add(r.id)
+                self.bind(oname, r, env, e)
+                return r
         c = self.canonical_call(f, args, kws, e, env)
         if c is not None:
             return c
@@ -1316,6 +1393,20 @@ class FuncGraph:
                 self.event('inplace', t, e, data=dict(target=old, how='out=', name=k.value.id))
                 env[k.value.id] = t
         return t
+
+    FRESH_MAKERS = ('numpy.empty', 'numpy.empty_like', 'numpy.zeros', 'numpy.zeros_like', 'numpy.ones', 'numpy.ones_like', 'numpy.full', 'numpy.full_like')
+
+    def _own_buffer(self, t, depth=0):
+        """an array this function allocated for results: np.empty(...) and relatives, the value an earlier `out=` call left in such a buffer, or one of these carried around a loop"""
+        if not isinstance(t, T) or depth > 4:
+            return False
+        if t.id in self.__dict__.get('_owned', ()):
+            return True
+        if t.op == 'call' and t.args[0].op == 'ref' and isinstance(t.args[0].args[0], Lib) and t.args[0].args[0].dotted in self.FRESH_MAKERS:
+            return True
+        if t.op == 'mu':
+            return self._own_buffer(t.args[0], depth + 1)
+        return False
 
     def _splice_stars(self, args):
         out = []
@@ -1709,6 +1800,8 @@ class FuncGraph:
                 t = self.mk('call', (self.mk('ref', (Lib('numpy.concatenate'),), e), (self.mk('tuple', ((arr, vals),), e),), (('axis', ax),)), e)
                 self.event('call', t, e)
                 return t
+        if lib == 'operator.index' and plain and len(args) == 1 and not kws:
+            return args[0]                    # operator.index(n) is n (or raises)
         if lib == 'numpy.clip' and plain and not any(k == 'out' for k, _ in kws):
             kwd = dict(kws)
             x = args[0] if args else kwd.get('a')
@@ -2121,6 +2214,19 @@ class FuncGraph:
         kd = self._keepdims_form(base, idx, e)
         if kd is not None:
             return kd
+        # reduce(x, axis=-1, keepdims=True)[..., 0]  is  reduce(x, axis=-1): the kept axis is taken out again
+        if base.op == 'call' and idx.op == 'tuple' and len(idx.args[0]) == 2 and idx.args[0][0].op == 'const' and idx.args[0][0].args[0] is Ellipsis \
+                and idx.args[0][1].op == 'const' and idx.args[0][1].args[0] == 0 and isinstance(idx.args[0][1].args[0], int) and not isinstance(idx.args[0][1].args[0], bool):
+            bf, bkw = base.args[0], dict((k, v) for k, v in base.args[2] if k is not None)
+            is_red = (bf.op == 'ref' and isinstance(bf.args[0], Lib) and bf.args[0].dotted in self.KEEPDIMS_REDUCERS) or \
+                (bf.op == 'attr' and bf.args[1] in self.KEEPDIMS_METHODS and bf.args[0].op != 'ref')
+            if is_red and len(bkw) == len(base.args[2]) and 'out' not in bkw:
+                pos_axis = self.KEEPDIMS_REDUCERS[bf.args[0].dotted] if bf.op == 'ref' else self.KEEPDIMS_METHODS[bf.args[1]]
+                kdv, ax = bkw.get('keepdims'), bkw.get('axis', base.args[1][pos_axis] if len(base.args[1]) > pos_axis else None)
+                if kdv is not None and kdv.op == 'const' and kdv.args[0] is True and ax is not None and ax.op == 'const' and ax.args[0] == -1 and not isinstance(ax.args[0], bool):
+                    new = self.mk('call', (bf, base.args[1], tuple(kv for kv in base.args[2] if kv[0] != 'keepdims')), base.node)
+                    self.event('call', new, e)
+                    return new
         mv = self._matvec_form(base, idx, e)
         if mv is not None:
             return mv
@@ -2178,6 +2284,25 @@ class FuncGraph:
                 if ev.term is base:
                     ev.term = new
             return new
+        if f.op == 'ref' and isinstance(f.args[0], Lib) and f.args[0].dotted in ('numpy.maximum', 'numpy.minimum') and len(base.args[1]) == 2 and not base.args[2]:
+            # a floor / ceiling by a SCALAR commutes with putting the axis back: maximum(norm(x, -1), tiny)[..., None] is maximum(norm(x, -1, keepdims=True), tiny)
+            def scalar_like(t_):
+                if t_.op == 'const' and isinstance(t_.args[0], (int, float)) and not isinstance(t_.args[0], bool):
+                    return True
+                return t_.op == 'attr' and t_.args[1] in ('tiny', 'eps', 'max', 'min', 'smallest_normal') and t_.args[0].op == 'call' and t_.args[0].args[0].op == 'ref' \
+                    and isinstance(t_.args[0].args[0].args[0], Lib) and t_.args[0].args[0].args[0].dotted in ('numpy.finfo', 'numpy.iinfo')
+            a_, b_ = base.args[1]
+            for arr, sc, first in ((a_, b_, True), (b_, a_, False)):
+                if scalar_like(sc) and not scalar_like(arr):
+                    inner = self._keepdims_form(arr, idx, e)
+                    if inner is None:
+                        return None
+                    new = self.mk('call', (f, (inner, sc) if first else (sc, inner), ()), base.node)
+                    for ev in self.events:
+                        if ev.term is base:
+                            ev.term = new
+                    return new
+            return None
         if f.op == 'ref' and isinstance(f.args[0], Lib) and f.args[0].dotted in self.KEEPDIMS_REDUCERS:
             pos_axis = self.KEEPDIMS_REDUCERS[f.args[0].dotted]
         elif f.op == 'attr' and f.args[1] in self.KEEPDIMS_METHODS and not (f.args[0].op == 'ref'):
